@@ -364,8 +364,8 @@ func (db *RockDB) ltrim2(ts int64, key []byte, startP, stopP int64) error {
 		stop = llen + stop
 	}
 	newLen := int64(0)
-	// whole list deleted
-	if start >= llen || start > stop {
+	// whole list deleted, (stop < 0 means the stop is before the first element)
+	if start >= llen || start > stop || stop < 0 {
 		db.lDelete(ts, key, db.wb)
 	} else {
 		if start < 0 {
